@@ -137,7 +137,28 @@ func ruleGoError(w *World, r *RuleResult) {
 					}
 				}
 			}
-			if !zero || c0 != ssa.Value(flagsP) {
+			// `!flags.Any()`, with Any verified to be `r != 0`
+			for _, d := range p.Decisions {
+				cond, val := d.Cond, d.Val
+				for {
+					u, isU := cond.(*ssa.UnOp)
+					if !isU || u.Op != token.NOT {
+						break
+					}
+					cond, val = u.X, !val
+				}
+				if call, isC := cond.(*ssa.Call); isC && !val && len(call.Common().Args) == 1 && call.Common().Args[0] == ssa.Value(flagsP) && w.isNonZeroPredicate(callee(call)) {
+					zero = true
+				}
+			}
+			// the zero flags may be returned as the parameter or as the literal 0
+			isZeroLit := false
+			if k, isK := c0.(*ssa.Const); isK {
+				if v, okV := condBits(k); okV && v == 0 {
+					isZeroLit = true
+				}
+			}
+			if !zero || (c0 != ssa.Value(flagsP) && !isZeroLit) {
 				bad = append(bad, "returns a nil error without the guard flags == 0")
 			}
 			continue
@@ -202,7 +223,7 @@ func ruleErrDecimalWrappers(w *World, r *RuleResult) {
 		iff, _ := b0.Instrs[len(b0.Instrs)-1].(*ssa.If)
 		okGuard := false
 		if iff != nil {
-			if bo, ok := iff.Cond.(*ssa.BinOp); ok && bo.Op == token.NEQ && isNilConst(bo.Y) {
+			if bo, ok := iff.Cond.(*ssa.BinOp); ok && (bo.Op == token.NEQ || bo.Op == token.EQL) && isNilConst(bo.Y) {
 				if c, ok := bo.X.(*ssa.Call); ok && w.calleeName(c) == "(*ErrDecimal).Err" && c.Common().Args[0] == ssa.Value(f.Params[0]) {
 					okGuard = true
 					// nothing else happens before the test
@@ -218,6 +239,10 @@ func ruleErrDecimalWrappers(w *World, r *RuleResult) {
 					}
 					// the error edge returns without calls or stores
 					eb := b0.Succs[0]
+					if bo.Op == token.EQL {
+						// `if e.Err() == nil { … }`: the error edge is the one that skips the body
+						eb = b0.Succs[1]
+					}
 					for _, in := range eb.Instrs {
 						switch in.(type) {
 						case *ssa.Store, ssa.CallInstruction:
@@ -231,7 +256,7 @@ func ruleErrDecimalWrappers(w *World, r *RuleResult) {
 			}
 		}
 		if !okGuard {
-			bad = append(bad, "does not start with `if e.Err() != nil { return … }`")
+			bad = append(bad, "does not start with `if e.Err() != nil { return … }` (or the body under `if e.Err() == nil`)")
 		}
 		// (ii) exactly one call to Context.<same name> on e.Ctx with own params in order
 		var ctxCalls []*ssa.Call
@@ -753,4 +778,21 @@ func (w *World) scratchParam(f *ssa.Function, idx int) bool {
 		}
 	}
 	return true
+}
+
+// isNonZeroPredicate: h is `func (r Condition) X() bool { return r != 0 }`.
+func (w *World) isNonZeroPredicate(h *ssa.Function) bool {
+	if h == nil || !w.inPkg(h) || len(h.Blocks) != 1 || len(h.Params) != 1 {
+		return false
+	}
+	rt, ok := h.Blocks[0].Instrs[len(h.Blocks[0].Instrs)-1].(*ssa.Return)
+	if !ok || len(rt.Results) != 1 {
+		return false
+	}
+	bo, ok := rt.Results[0].(*ssa.BinOp)
+	if !ok || bo.Op != token.NEQ || bo.X != ssa.Value(h.Params[0]) {
+		return false
+	}
+	v, isK := condBits(bo.Y)
+	return isK && v == 0
 }
